@@ -123,9 +123,13 @@ class Scen(CompScenario):
                     f"write(count={wcount}{', max_count=' + str(wneed) if self.mc else ''}) ran with {R} free of {depth}",
                     port="write")
         if en["write"]:
-            self.expect(obs["write.runnable"] == int(fits), "write-ready-mismatch",
+            # the statement is one-directional ("ready only when space remains", "accepts a call only if it fits"):
+            # a callable write must fit; a fitting write that is refused is counted, not judged
+            self.expect(not obs["write.runnable"] or fits, "write-accepted-without-space",
                         f"write(count={wcount}{', max_count=' + str(wneed) if self.mc else ''}) callable="
                         f"{obs['write.runnable']} with {R} free of {depth}", port="write")
+            if fits and not obs["write.runnable"]:
+                self.hit("fitting_write_refused")
             if fits and not w:
                 self.hit("blocked_though_ready")
 
@@ -268,7 +272,9 @@ class Prop(PropBase):
     stubs = ["cycle driver (stimulus)", "deque reference model"]
     search_space = ("WideFifo configurations (depth, read/write widths equal and unequal, write_max_count) and batched "
                     "read/peek/write/clear call histories with refuse, flush and boundary faults")
-    assumptions = ["read / write counts stay inside range(width + 1) of their layouts and count <= max_count (premise)",
+    assumptions = ["fullness / emptiness (what a write may add, what a read / peek returns) are judged on the queue content at the "
+                   "beginning of the cycle; of the calls executed in one cycle `clear` is applied last",
+                   "read / write counts stay inside range(width + 1) of their layouts and count <= max_count (premise)",
                    "readiness of read, peek and clear is not part of the statement: counted, not judged"]
 
     def gen_config(self, rng, tier, idx):
